@@ -575,7 +575,15 @@ class Judge:
         pos = 0
         nlook = 0
         sampled = False
-        for key in lc.keys:
+        # W records: var(key) repeated with hostile bytes right behind the (not NUL-terminated) &str key
+        ws = {}
+        kidx = -1
+        for t, pl in recs:
+            if t in "Uk":
+                kidx += 1
+            elif t == "W":
+                ws.setdefault(kidx, []).append(pl)
+        for kidx, key in enumerate(lc.keys):
             if pos >= len(it):
                 ck.note_inconclusive("lookup records missing (%s)" % cell)
                 return
@@ -607,6 +615,15 @@ class Judge:
                 nlook += 1
                 if v[0] != "V" or v[1] != exp_v:
                     self.lookup_viol(lc, key, "var", ref, v[1], rcls, exp_v)
+                for pl in ws.get(kidx, []):
+                    nlook += 1
+                    ck.count("lookups_with_hostile_byte_after_key")
+                    if pl[1:] != exp_v:
+                        ck.note_distinct("viol/%s/%s/byte-after-key" % (lc.mode, lc.prof))
+                        self.viol("C07/env-lookup/result-depends-on-byte-after-key", lc,
+                                  {"api": "var", "byte_after_key": pl[:1].hex(), "relation_class": rcls,
+                                   "expected": repr(exp_v[:80]), "got": repr(pl[1:81])}, key=key)
+                        break
             elif v[0] != "v":
                 ck.note_inconclusive("probe used var() with a non-UTF-8 key?")
             if not sampled and "ppfx" in rcls and self.nsample_lookup < 6 and (lc.idx % 7 == 3 or lc.kind == "mixed"):
